@@ -76,6 +76,18 @@ def run(ctx):
         cases.append(("generate_retail_mac", (w, rng.randbytes(8), gens.special_bytes(rng, 17), 1, None)))
         cases.append(("generate_retail_mac", (rng.randbytes(8), w, gens.special_bytes(rng, 16), 2, None)))
         cases.append(("generate_retail_mac", (w + r8, r8 + w, gens.special_bytes(rng, 8), 3, 4)))
+    # distinct keys with equal key check values (2- and 3-byte KCV), and keys that differ only in parity bits
+    for ks in (8, 16, 24):
+        for nb in (2, 3):
+            pair = gens.kcv_colliding_pair(rng, ks, nb)
+            if pair:
+                for d in (rng.randbytes(5), rng.randbytes(8), gens.special_bytes(rng, 24)):
+                    cases.append(("generate_retail_mac", (pair[0], pair[1], d, rng.choice((1, 2, 3)), None)))
+                    cases.append(("generate_retail_mac", (pair[1], pair[0], d, 1, 4)))
+        k = rng.randbytes(ks)
+        kpar = bytes(b ^ 1 for b in k)
+        cases.append(("generate_retail_mac", (k, kpar, rng.randbytes(11), 2, None)))
+        cases.append(("generate_retail_mac", (k, k, rng.randbytes(11), 1, None)))
     for alg_aes in (False, True):
         for n in (0, 1, 8, 16, 24, 32, 33):
             for _ in range(2):
